@@ -242,6 +242,19 @@ func Run(c *evid.Ctx) {
 		if hash.Hash64StrV2(s) != v2b {
 			viol("Hash64StrV2", fmt.Sprintf("Hash64StrV2 differs from Hash64V2 for %x", clip(b)))
 		}
+		// the address hash: the square of the big-endian int for 4 bytes, the big-endian long for 8,
+		// the 32-bit hash otherwise
+		wantAddr := int64(h)
+		switch len(b) {
+		case 4:
+			x := int64(int32(binary.BigEndian.Uint32(b)))
+			wantAddr = x * x
+		case 8:
+			wantAddr = int64(binary.BigEndian.Uint64(b))
+		}
+		if g := hash.HashAddr(b); g != wantAddr {
+			viol("HashAddr", fmt.Sprintf("HashAddr(%x)=%d, expected %d", clip(b), g, wantAddr))
+		}
 		if g := hash.GetLongHash(s); g != v2a {
 			viol("GetLongHash", fmt.Sprintf("GetLongHash differs from Hash64v2 for %x", clip(b)))
 		}
